@@ -10,6 +10,8 @@ def is_ground(out):
 
 
 def case(rep, drv, rnd, i, tier):
+    if i % 4 == 3:
+        return case_alternatives(rep, drv, rnd, i)
     nvars, pairs = unif.gen_pairs(rnd)
     watch = [unif.V(k) for k in range(nvars)] + [pairs[-1][0], pairs[-1][1]]
     sched = rnd.choice([('all',), ('all',), ('stop', 1), ('stop', 0), ('raise', 1)])
@@ -66,6 +68,49 @@ def case(rep, drv, rnd, i, tier):
     if sx(model) != sx(real):
         rep.disagreements_checked += 1
         rep.broken_ties.append({'tie': 'T3 model unify vs engine.unify', 'real': sx(real), 'model': sx(model), **payload})
+
+
+def case_alternatives(rep, drv, rnd, i):
+    """alternatives under a stack of open unifications: what the second alternative sees must not
+    depend on the first having been tried (and observed) before it"""
+    nvars, pairs = unif.gen_pairs(rnd)
+    prefix, last = pairs[:-1], pairs[-1]
+    if not prefix:
+        prefix = [(unif.V(0), unif.V(rnd.randrange(nvars)))]
+    alts = [last]
+    for _ in range(rnd.randint(1, 2)):
+        r = rnd.random()
+        if r < 0.5:
+            alts.append((unif.V(rnd.randrange(nvars)), unif.gen_term(rnd, nvars, 1)))
+        elif r < 0.8:
+            alts.append((unif.V(rnd.randrange(nvars)), unif.V(rnd.randrange(nvars))))
+        else:
+            alts.append((last[0], unif.mutate(rnd, last[1], nvars)))
+    rnd.shuffle(alts)
+    watch = [unif.V(k) for k in range(nvars)]
+    rep.evaluations += 1
+    rep.count('alternatives=%d' % len(alts))
+    expect = [unif.textbook(prefix + [alt], watch) for alt in alts]
+    if unif.textbook(prefix, watch)[0] != 'ans' or any(e[0] == 'unspecified' for e in expect):
+        rep.count('unspecified-skipped')
+        return
+    try:
+        got, bound = unif.real_unify_alternatives(prefix, alts, watch)
+    except RecursionError:
+        rep.count('unspecified-skipped')
+        return
+    payload = {'prefix': sx([[a, b] for a, b in prefix]), 'alternatives': sx([[a, b] for a, b in alts]), 'watch': sx(watch)}
+    for k, (e, g) in enumerate(zip(expect, got)):
+        want = 'fail' if e[0] == 'fail' else sx([Sym('ans')] + list(e[1]))
+        if sx(g) != want:
+            rep.disagreements_checked += 1
+            rep.violation(dict(payload, kind='alternative %d tried after the others were backtracked differs from a fresh unification' % k,
+                               real=sx(g), textbook=want))
+            return
+    if bound != 0:
+        rep.violation(dict(payload, kind='%d variables still bound after the generator ended' % bound))
+        return
+    rep.nontriv(payload['prefix'] + payload['alternatives'])
 
 
 def run(tier):
